@@ -224,6 +224,7 @@ func (cli *Client) EnrollContext(c net.Conn, ctx any) (Conn, error) {
 	defer func() {
 		if gc == nil { // no connection has taken over the duplicated fd
 			unix.Close(dupFD) //nolint:errcheck
+			vhook.Sys("el.dupclose", nil, dupFD, 0, nil)
 		}
 	}()
 
